@@ -215,10 +215,16 @@ pub fn run(ctx: &Ctx) -> i32 {
                     if let CompileOutcome::Ok(pr) = gl::compile(src, dedup, true) {
                         match &pr.circuit {
                             garble_lang::circuit_type::CircuitType::Register(r) => {
-                                if r != &rc::Circuit::from(c) {
-                                    ctx.violation(&format!("CircuitKind::Register differs from converting the SSA circuit for {origin}"), json!({"kind": "program", "program": src, "dedup": dedup}));
+                                match crate::util::catch(|| rc::Circuit::from(c)) {
+                                    Ok(converted) => {
+                                        if r != &converted {
+                                            ctx.violation(&format!("CircuitKind::Register differs from converting the SSA circuit for {origin}"), json!({"kind": "program", "program": src, "dedup": dedup}));
+                                        }
+                                    }
+                                    Err(p) => ctx.violation(&format!("conversion of the compiled circuit of {origin} panicked: {p}"), json!({"kind": "program", "program": src, "dedup": dedup})),
                                 }
-                                if pr.circuit.ops() != c.gates.len() || pr.circuit.ands() != c.and_gates() {
+                                let counts = crate::util::catch(|| (pr.circuit.ops(), pr.circuit.ands()));
+                                if counts.as_ref().ok() != Some(&(c.gates.len(), c.and_gates())) {
                                     ctx.violation(&format!("ops()/ands() of the register form differ from the SSA form for {origin}"), json!({"kind": "program", "program": src, "dedup": dedup}));
                                 }
                             }
@@ -243,7 +249,9 @@ pub fn run(ctx: &Ctx) -> i32 {
                 Err(e) => ctx.violation(&format!("random well-formed circuit: {e}"), json!({"kind": "ssa", "circuit": circuit_json(&c), "problem": e})),
                 Ok(()) => {
                     if samples.len() < 1 && c.gates.len() < 10 && c.gates.len() > 4 {
-                        samples.push(json!({"ssa": circuit_json(&c), "register": reg_json(&rc::Circuit::from(&c))}));
+                        if let Ok(r) = crate::util::catch(|| rc::Circuit::from(&c)) {
+                            samples.push(json!({"ssa": circuit_json(&c), "register": reg_json(&r)}));
+                        }
                     }
                 }
             }
